@@ -101,7 +101,9 @@ def main():
     ap.add_argument("--props", default=None)
     a = ap.parse_args()
     if a.cmd == "verify":
-        print(json.dumps(verify(a.dir), indent=1))
+        r = verify(a.dir)
+        json.dump(r, open(os.path.join(a.dir, "verify.json"), "w"), indent=1)
+        print(json.dumps(r, indent=1))
     elif a.cmd == "run":
         r = run(a.dir, a.tier, a.props.split(",") if a.props else None)
         print(json.dumps({k: v for k, v in r.items() if k != "checks"} | {"checks": {p: {kk: vv for kk, vv in c.items() if kk != "tail"} for p, c in r.get("checks", {}).items()}}, indent=1))
